@@ -39,6 +39,11 @@ func cloneRequest(req *http.Request) *http.Request {
 	req2 := new(http.Request)
 	*req2 = *req
 	req2.Header = req.Header.Clone()
+	if req2.Header == nil {
+		// A request built by hand may carry a nil header map; the clone is
+		// about to receive conditional header fields.
+		req2.Header = make(http.Header)
+	}
 	return req2
 }
 
